@@ -41,7 +41,7 @@ mutual
 /-- pointer slots of a sequence in call order (`0` = null) -/
 def ptrSlotsItem : Item → List Lbl
   | .ptr _ o => [o]
-  | .object _ _ body => ptrSlots body
+  | .object _ _ _ body => ptrSlots body
   | _ => []
 def ptrSlots : List Item → List Lbl
   | [] => []
@@ -113,7 +113,7 @@ theorem C10_legacy_empty_string_value :
 
 /-- a listener pointer written before its target, a const array shared by two variables, an empty string -/
 def sampleW : List WItem :=
-  [.value 10 (.listener 1), .item (.object 1 [76] [.prim .u8 0]),
+  [.value 10 (.listener 1), .item (.object .typed 1 [76] [.prim .u8 0]),
    .value 11 (.constArray 50 1 [(51, .int 7), (52, .string []), (53, .constArray 60 0 [(61, .vector [0,0,0,0,0,0,0,0,0,0,0,0])])]),
    .value 12 (.constArrayRef 50), .value 13 (.constString (some [97])), .value 14 .none]
 
